@@ -388,6 +388,7 @@ type c08In struct {
 	ID     uint32
 	ASList []uint32
 	PadLen int
+	Stale  bool
 }
 
 func (cs *c08Case) adjIn() []c08In {
@@ -395,7 +396,7 @@ func (cs *c08Case) adjIn() []c08In {
 	cs.n.s.mgmtOperation(func() error {
 		for _, p := range cs.peer().adjRibIn.PathList(c08Fams, false) {
 			x, _ := p.GetNlri().Serialize()
-			in := c08In{F: p.GetFamily(), X: fmt.Sprintf("%x", x), ID: p.RemoteID(), ASList: p.GetAsList(), PadLen: -1}
+			in := c08In{F: p.GetFamily(), X: fmt.Sprintf("%x", x), ID: p.RemoteID(), ASList: p.GetAsList(), PadLen: -1, Stale: p.IsStale()}
 			for _, a := range p.GetPathAttrs() {
 				if u, ok := a.(*bgp.PathAttributeUnknown); ok && uint8(u.GetType()) == c08PadAttr {
 					in.PadLen = len(u.Value)
@@ -408,14 +409,22 @@ func (cs *c08Case) adjIn() []c08In {
 	return out
 }
 
-func c08FindIn(ins []c08In, rt *c08Route) *c08In {
+// c08FindIn looks the route up in ADJ_IN, preferring the entry with the path id it was sent with
+// (a stale copy retained from an earlier graceful-restart session may sit under another id).
+func c08FindIn(ins []c08In, rt *c08Route, id uint32) *c08In {
 	x := fmt.Sprintf("%x", rt.X)
+	var other *c08In
 	for i := range ins {
 		if ins[i].F == rt.F && ins[i].X == x {
-			return &ins[i]
+			if ins[i].ID == id && !ins[i].Stale {
+				return &ins[i]
+			}
+			if !ins[i].Stale {
+				other = &ins[i]
+			}
 		}
 	}
-	return nil
+	return other
 }
 
 // connect offers connections until gobgp answers with its OPEN (it closes them while Idle), then
@@ -782,12 +791,12 @@ func (cs *c08Case) session(sno int, o *c08Open, single bool) bool {
 	}
 	ins := cs.adjIn()
 	for _, f := range res.famList() {
-		in := c08FindIn(ins, cs.probe[f])
 		withID := modes[f]&c08APRecv != 0
 		wantID := uint32(0)
 		if withID {
 			wantID = 7
 		}
+		in := c08FindIn(ins, cs.probe[f], wantID)
 		switch {
 		case in == nil:
 			key := "c08:family:probe-for-negotiated-family-not-accepted"
@@ -811,7 +820,11 @@ func (cs *c08Case) session(sno int, o *c08Open, single bool) bool {
 		}
 	}
 	if bigFam != 0 {
-		in := c08FindIn(ins, bigRoute)
+		bigID := uint32(0)
+		if modes[bigFam]&c08APRecv != 0 {
+			bigID = 9
+		}
+		in := c08FindIn(ins, bigRoute, bigID)
 		switch {
 		case in == nil && bigLen == 4096:
 			cs.viol(o, "c08:extmsg:4096-octet-update-not-accepted", "an UPDATE of exactly 4096 octets is not in ADJ_IN", nil)
@@ -871,7 +884,7 @@ func (cs *c08Case) session(sno int, o *c08Open, single bool) bool {
 		synctest.Wait()
 		time.Sleep(time.Second)
 		synctest.Wait()
-		if in := c08FindIn(cs.adjIn(), cs.probe[f]); in != nil {
+		if in := c08FindIn(cs.adjIn(), cs.probe[f], 0); in != nil {
 			side := "neither side"
 			for _, fc := range l.fams() {
 				if fc.F == f {
@@ -906,7 +919,7 @@ func (cs *c08Case) session(sno int, o *c08Open, single bool) bool {
 		time.Sleep(2 * time.Second)
 		synctest.Wait()
 		code, sub, _, ok := spk.notification()
-		accepted := c08FindIn(cs.adjIn(), &c08Route{F: f, X: nl}) != nil
+		accepted := c08FindIn(cs.adjIn(), &c08Route{F: f, X: nl}, 0) != nil
 		switch {
 		case accepted || (!ok && cs.stillEstablished()):
 			cs.viol(o, "c08:extmsg:oversize-accepted-without-capability", fmt.Sprintf("an UPDATE of %d octets was accepted (in ADJ_IN: %v, session still up) although the peer did not announce Extended Message", n, accepted), map[string]any{"outcome": outcome})
